@@ -1576,6 +1576,10 @@ func (e *SpecEnv) stringsCall(name string, argExprs []ast.Expr) (Value, error) {
 		// strings.IndexFrom(s, sub, from): contract-only helper, the index of the first occurrence of
 		// sub in s at or after from (-1 if none)
 		return App("str.indexof", "Int", args[0], args[1], args[2]), nil
+	case "Count":
+		return strRangeFn("str_count", args[0], args[1]), nil
+	case "LastIndex":
+		return strRangeFn("str_lastidx", args[0], args[1]), nil
 	case "TrimSpace":
 		return trimSpace(args[0]), nil
 	case "TrimLeft":
